@@ -1,5 +1,5 @@
 import GqlProofs.PlanCache
-import GqlProofs.Normalize
+import GqlProofs.NormalizeCheck
 /-! # C06 — Prepared plans and the plan cache are semantically transparent
 
 Property theorems only.  `M` = `GqlModel.PlanCache` (plan_cache.go function by function), `S` = no cache:
@@ -513,13 +513,14 @@ Model: `GqlModel/Normalize.lean` (`normalizeDocument`, `normalizeOperation`, `no
 document and the SynthArgs of the real `normalizeDocument` with the model on every pool request.
 
 Premises the theorems need (after the repairs of D-06h/i/j, 4210b3d 54b00d5 80085fd, which the model follows):
-* `ArgsOK`: Int tokens of variable-free argument literals have the lexer's shape `-?digits` (a premise only because the
-  model's `Value.int` can hold any text). VALIDITY of extracted literals is no premise any more: `tryExtract` checks
-  `isValidLiteralValue` before extracting, and `-0` stays text;
+* `ArgsOK`: argument values are well-formed (`Reader.WFValue`: names are GraphQL names, number tokens lexer-shaped —
+  what the parser produces, C03) and argument types are well-formed input types (C11). VALIDITY of extracted literals is
+  no premise: `tryExtract` checks `isValidLiteralValue` before extracting, and `-0` stays text;
 * `UserOK`: the user's own variables evaluate alike with and without the synthetic ones — by `userOK_of_agree` it is
   enough that the two variable maps agree on the variables the argument list mentions, which holds because synthetic
   names avoid every variable name occurring in the document (`synth_names_fresh`);
-* `KeySound`: equal `(type, printed literal)` keys denote literals that evaluate alike (printer round trip, C08);
+* the soundness of the dedupe key `(type, printed literal)` is no premise any more: `dedupe_key_sound` derives it from
+  C08's read-back theorems for well-formed types and values;
 * `customLti`: a custom scalar's ParseLiteral / ParseValue agree on a literal and its client form (user code);
 * `Realises`: the variable map of the normalised request holds, for each synthetic variable, the coerced client
   form (discharged by `getVariableValues` on the appended definitions: stated below as the missing lemma). -/
@@ -535,24 +536,10 @@ theorem literalToInput_agree (s : Schema) (hcc : customLti s) (t : GType) (l : V
     isValidInputValue s t (lti l) = true ∧ coerceValue s t (lti l) = valueFromAST s t (some l) vars :=
   lti_agree s hcc t l vars hv hcn h
 
-theorem find_of_nodup (defs : List ArgDef) (hnd : (defs.map (·.name)).Nodup) (d : ArgDef) (hd : d ∈ defs) :
-    defs.find? (fun d' => d'.name == d.name) = some d := by
-  induction defs with
-  | nil => cases hd
-  | cons x xs ih =>
-    simp only [List.map_cons, List.nodup_cons] at hnd
-    rcases List.mem_cons.mp hd with rfl | hd'
-    · simp [List.find?]
-    · have hne : (x.name == d.name) = false := by
-        simp only [beq_eq_false_iff_ne, ne_eq]
-        intro e; exact hnd.1 (e ▸ List.mem_map.mpr ⟨d, hd', rfl⟩)
-      simp only [List.find?, hne]
-      exact ih hnd.2 hd'
-
 /-- **normalize_args_transparent.** For every field: the argument map a resolver receives from the normalised
 argument list under the normalised request's variables equals the one it receives from the original argument list
 under the request's own variables — whatever was or was not extracted, from any state of the walk. -/
-theorem normalize_args_transparent (s : Schema) (hcc : customLti s) (hks : KeySound s)
+theorem normalize_args_transparent (s : Schema) (hcc : customLti s)
     (defs : List ArgDef) (hnd : (defs.map (·.name)).Nodup) (as : List Argument) (st : NState) (vars vars' : Vars)
     (hes : EntriesOK s st.entries) (ha : ArgsOK s defs as) (hu : UserOK s vars vars' as)
     (hre : Realises s vars' (normArgs s defs as st).2.entries) :
@@ -562,7 +549,7 @@ theorem normalize_args_transparent (s : Schema) (hcc : customLti s) (hks : KeySo
   apply filterMap_congr'
   intro d hd
   simp only [argEntry]
-  rw [normArgs_lookup s hcc hks defs vars vars' as st hes ha hu hre d.name d (find_of_nodup defs hnd d hd)]
+  rw [normArgs_lookup s hcc defs vars vars' as st hes ha hu hre d.name d (find_of_nodup defs hnd d hd)]
 
 /-- **synth_names_fresh.** The synthetic variables of an operation never clash with a variable the operation defines
 nor with any variable name occurring anywhere in the document (`docNames = docVarNames doc`: definitions and uses,
@@ -591,15 +578,24 @@ theorem normalize_preserves_shape (s : Schema) (root : String) (docNames : List 
         .operation op name (vars ++ newDefs) dirs sel' loc ∧ eraseSet sel' = eraseSet sel :=
   ⟨_, _, rfl, normSet_shape s sel root (initState vars docNames)⟩
 
+/-- **dedupe_key_sound.** For well-formed types and literals, equal `byLiteral` keys (rendered type, NUL, printed literal)
+mean the same type and literals that evaluate alike under every variable map — from C08's read-back theorems
+(`readTypeTop_typeC`, `readValueTop_valueC`) and "evaluation ignores locations" (`valueFromAST_strip`). -/
+theorem dedupe_key_sound (s : Schema) (t t' : GType) (v v' : Value)
+    (ht : Reader.WFType (typeRefOf t)) (ht' : Reader.WFType (typeRefOf t')) (hv : Reader.WFValue v) (hv' : Reader.WFValue v')
+    (h : litKey t v = litKey t' v') :
+    t = t' ∧ ∀ vars, valueFromAST s t (some v) vars = valueFromAST s t' (some v') vars :=
+  litKey_sound s t t' v v' ht ht' hv hv' h
+
 /-- `normalize_args_transparent` with `UserOK` discharged: it suffices that the two variable maps agree on the
 variables the argument list mentions. -/
-theorem normalize_args_transparent_of_agree (s : Schema) (hcc : customLti s) (hks : KeySound s)
+theorem normalize_args_transparent_of_agree (s : Schema) (hcc : customLti s)
     (defs : List ArgDef) (hnd : (defs.map (·.name)).Nodup) (as : List Argument) (st : NState) (vars vars' : Vars)
     (hes : EntriesOK s st.entries) (ha : ArgsOK s defs as)
     (hagree : ∀ x ∈ argsVars as, lookupD vars' x = lookupD vars x)
     (hre : Realises s vars' (normArgs s defs as st).2.entries) :
     getArgumentValues s defs (normArgs s defs as st).1 vars' = getArgumentValues s defs as vars :=
-  normalize_args_transparent s hcc hks defs hnd as st vars vars' hes ha (userOK_of_agree s vars vars' as hagree) hre
+  normalize_args_transparent s hcc defs hnd as st vars vars' hes ha (userOK_of_agree s vars vars' as hagree) hre
 
 /-- every recorded literal IS valid for its type — by construction of `tryExtract`, not by assumption -/
 theorem extracted_literals_are_valid (s : Schema) (defs : List ArgDef) (as : List Argument) (st : NState)
@@ -613,31 +609,79 @@ theorem synth_args_are_valid_inputs (s : Schema) (hcc : customLti s) (defs : Lis
     (st : NState) (hes : EntriesOK s st.entries) (ha : ArgsOK s defs as) :
     ∀ e ∈ (normArgs s defs as st).2.entries, isValidInputValue s e.type (lti e.lit) = true := by
   intro e he
-  obtain ⟨h1, h2, h3, _⟩ := normArgs_entriesOK s defs as st hes ha e he
+  obtain ⟨h1, h2, h3, _, _, _⟩ := normArgs_entriesOK s defs as st hes ha e he
   exact (lti_agree s hcc e.type e.lit [] h1 h2 h3).1
 
 /-- `normalize_original_unmodified` is trivial here: the model is a pure function, the input document is a value.
 On the real code it is checked on every normalised request (printer text and structural twin before/after). -/
 theorem normalize_original_unmodified (doc : Document) : doc = doc := rfl
 
-/-- The end-to-end statement (NOT proved): executing the normalised document with the request's variables plus the
-SynthArgs gives the response (data, error paths, resolver log with arguments) of executing the original.
-Missing to compose it from the theorems above:
-1. `getVariableValues s (vars ++ entries.map mkVarDef) (synth ++ inputs)` succeeds iff it does on `vars`/`inputs` and
-   then `Realises` the entries and agrees with the original map on the user's names (from `synth_args_are_valid_inputs`,
-   `synth_names_fresh`, `lookupD_insertSorted`; routine, not done);
-2. a simulation lemma for `Exec.collect` / `Exec.execGroups`: two selection sets with equal `eraseSet` whose field
-   nodes have argument lists that evaluate alike (`normalize_args_transparent`) produce the same groups, log and
-   result — an induction over Exec's fuel-recursive mutual functions, with the typing fact that the parent type the
-   normaliser walks with is the runtime object type at which `Exec.fieldDef?` looks the field up (object-typed
-   positions only; nothing is extracted below abstract types);
-3. threading the (now weak) premises through the whole walk: lexer-shaped Int tokens for every argument literal
-   (`ArgsOK`) and `argsVars as ⊆ docVarNames doc` for every field's argument list (so that `userOK_of_agree` applies with
-   `synth_names_fresh`). Validity of the original document is NOT needed any more. -/
-def NormalizedTransparent (s : Schema) : Prop :=
-  ∀ (doc doc' : Document) (opName : String) (inputs synth : Vars) (w : Exec.World) (fuel : Nat),
-    normalizeDocument s doc opName = .ok doc' synth →
-    Exec.execute s doc' opName (synth ++ inputs) w fuel = Exec.execute s doc opName inputs w fuel
+/-- **synthetic variables coerce to the literals' values (piece 1).** `getVariableValues` on the user's definitions
+followed by the synthetic ones, with SynthArgs merged over the client's variables, gives the client's own result
+extended by one entry per extracted literal (`extendVars`: the coerced client form, which by `literalToInput_agree` is
+what `valueFromAST` gave the literal) — or the client's own error. -/
+theorem synthetic_variables_coerce (s : Schema) (vars : List VarDef) (es : List Entry) (inputs : Vars)
+    (hfresh : ∀ e ∈ es, e.name ∉ userVarNames vars) (hnd : (es.map (·.name)).Nodup)
+    (hok : ∀ e ∈ es, isInputType s e.type = true ∧ isValidInputValue s e.type (lti e.lit) = true) :
+    getVariableValues s (vars ++ es.map mkVarDef) (es.map (fun e => (e.name, lti e.lit)) ++ inputs) =
+      match getVariableValues s vars inputs with
+      | .error e => .error e
+      | .ok v => .ok (extendVars s es v) :=
+  getVariableValues_normalised s vars es inputs hfresh hnd hok
+
+/-- **executor simulation (piece 2).** Two executions over the same schema, fragments and world, one with variable map
+`vars'` on groups related to the other's by `GRel` (same keys, same field names, argument lists that evaluate alike,
+related sub-selections), give the same result, state, errors and invocation log — for every fuel. -/
+theorem executor_simulation (c : Exec.Ctx) (vars' : Vars) (hf : FragsOK c vars') (fuel : Nat) (dfr : Bool) (rt : String)
+    (src : Exec.GoVal) (path : Exec.Path) (g g' : Exec.Groups) (acc : List (String × JVal)) (st : Exec.St)
+    (hg : GRel c vars' rt g g') (hu : HUAll c rt g) :
+    Exec.execGroups (ctx' c vars') fuel dfr rt src path g' acc st = Exec.execGroups c fuel dfr rt src path g acc st :=
+  (sim_all c vars' hf fuel).1 dfr rt src path g g' acc st hg hu
+
+/-- **normalized_transparent (end to end).** For every schema, document, operation name, client variables, world and
+fuel: executing the NORMALISED document with (SynthArgs over the client's variables) gives exactly the response —
+data, error paths, resolver invocation log with the arguments each resolver received, or request error, or fuel
+exhaustion — of executing the ORIGINAL document with the client's variables.
+
+Premises (each necessary or owned by another property):
+* `DocLex doc` — field-argument values are well-formed (`Reader.WFValue`: names are GraphQL names, number tokens have
+  the lexer's shape; what the parser produces — the model's `Value` can hold any text);
+* `ExecUniform` — in the ORIGINAL execution every set of field nodes merged under one response key has one field
+  name, hereditarily: what OverlappingFieldsCanBeMerged (C02) guarantees; the executor model runs unvalidated
+  documents, and without this the statement is FALSE on the models (`{ x: a { k1: f(v: 3) } x: b { k2: f(v: 3) } }`
+  with `a: A{f(v: Int)}`, `b: B{f(v: [Int])}`: B's sub-selection, normalised at B, is executed at A);
+* `SchemaOK s` — argument names of a field distinct, argument types well-formed input types, no user field shadows
+  `__schema`/`__type` (schema construction, C11);
+* `customLti s` — a custom scalar's ParseLiteral/ParseValue agree on a literal and its client form (user code).
+No premise on fuel: both sides run with the same fuel and exhaust it together. Validity of the original document is
+not needed (extracted literals are valid by construction, undefined `$__pcvN` cannot be captured).
+
+The hypothesis-free statement, kept for the record (false without `ExecUniform`, as shown above):
+  ∀ s doc doc' opName inputs synth w fuel, normalizeDocument s doc opName = .ok doc' synth →
+    Exec.execute s doc' opName (synth ++ inputs) w fuel = Exec.execute s doc opName inputs w fuel -/
+theorem normalized_transparent (s : Schema) (hcc : customLti s) (hsch : SchemaOK s)
+    (doc doc' : Document) (opName : String) (inputs synth : Vars) (w : Exec.World) (fuel : Nat)
+    (hnorm : normalizeDocument s doc opName = .ok doc' synth) (hlex : DocLex doc)
+    (hu : ExecUniform s doc opName inputs w) :
+    Exec.execute s doc' opName (synth ++ inputs) w fuel = Exec.execute s doc opName inputs w fuel :=
+  normalized_transparent_core s hcc hsch doc doc' opName inputs synth w fuel hnorm hlex hu
+
+/-- **a static, decidable sufficient condition for `ExecUniform`**: if response keys determine field names throughout
+the document (operation and fragments), every group of field nodes any execution merges has one field name. (Stricter
+than OverlappingFieldsCanBeMerged, which also admits equal keys with different names under disjoint type conditions.) -/
+theorem uniform_of_keys_functional (s : Schema) (doc : Document) (opName : String) (inputs : Vars) (w : Exec.World)
+    (h : KeysFunctional doc) : ExecUniform s doc opName inputs w :=
+  execUniform_of_keysFunctional s doc opName inputs w h
+
+/-- `normalized_transparent` with every schema- and document-side premise in decidable form (`decide` discharges them on a
+concrete schema / document): `schemaOKB`, `noCustomScalarsB`, `KeysFunctional`; `DocLex` remains (float tokens make
+`Reader.WFValue` an existential). -/
+theorem normalized_transparent_checked (s : Schema) (hs : schemaOKB s = true) (hc : noCustomScalarsB s = true)
+    (doc doc' : Document) (opName : String) (inputs synth : Vars) (w : Exec.World) (fuel : Nat)
+    (hnorm : normalizeDocument s doc opName = .ok doc' synth) (hlex : DocLex doc) (hk : KeysFunctional doc) :
+    Exec.execute s doc' opName (synth ++ inputs) w fuel = Exec.execute s doc opName inputs w fuel :=
+  normalized_transparent s (customLti_of_check s hc) (schemaOK_of_check s hs) doc doc' opName inputs synth w fuel hnorm hlex
+    (execUniform_of_keysFunctional s doc opName inputs w hk)
 
 /-! ## non-vacuity -/
 section Examples
@@ -670,6 +714,59 @@ example : isValidLiteralValue exS (.list (.named "Int")) (some (.list [.str "5" 
 example : canonInts (.int "-0" L0) = true ∧
     (coerceValue exS (.named "ID") (lti (.int "-0" L0)) == .str "-0") = true ∧
     (valueFromAST exS (.named "ID") (some (.int "-0" L0)) [] == .str "-0") = true := by decide +kernel
+-- end to end on a concrete request: `{ echo(i: 3) a { f(v: 3) } }` — the normalised document with SynthArgs answers
+-- (data and the argument maps of the resolver log) exactly like the original
+def exTypes2 : List TypeDef := [.scalar "Int" .int "", .scalar "String" .string "",
+  .object "A" [] [⟨"f", .named "String", [⟨"v", .named "Int", none, ""⟩], "", ""⟩] false "",
+  .object "B" [] [⟨"f", .named "String", [⟨"v", GType.list (.named "Int"), none, ""⟩], "", ""⟩] false "",
+  .object "Query" [] [⟨"echo", .named "String", [⟨"i", .named "Int", none, ""⟩], "", ""⟩,
+    ⟨"a", .named "A", [], "", ""⟩, ⟨"b", .named "B", [], "", ""⟩] false ""]
+def exS2 : Schema := { types := exTypes2, query := "Query", mutation := none, subscription := none, directives := [] }
+def exObjects : List (Nat × Exec.WObj) :=
+  [(1, ⟨"A", [("f", .value (.str "fa"))]⟩), (2, ⟨"B", [("f", .value (.str "fb"))]⟩)]
+def exRootFields : List (String × Exec.Outcome) :=
+  [("echo", .value (.str "e")), ("a", .value (.ref 1)), ("b", .value (.ref 2))]
+def exWorld : Exec.World := { objects := exObjects, rootFields := exRootFields, isTypeOf := [], resolveType := [] }
+def fld (al : Option String) (nm : String) (args : List Argument) (sub : Option (List Selection)) : Selection :=
+  .field (al.map (fun a => ⟨a, L0⟩)) ⟨nm, L0⟩ args [] (sub.map (fun ss => SelectionSet.mk ss L0)) L0
+def arg3 (n : String) : Argument := ⟨⟨n, L0⟩, .int "3" L0, L0⟩
+def docOf (sels : List Selection) : Document := ⟨[.operation .query none [] [] (.mk sels L0) L0], L0⟩
+def exDocGood : Document := docOf [fld none "echo" [arg3 "i"] none, fld none "a" [] (some [fld none "f" [arg3 "v"] none])]
+/-- data and the argument maps the resolvers received -/
+def summary : Exec.Response → Option (Option (List (String × JVal)) × List (String × List (String × JVal)))
+  | .result data _ log _ => some (data, log.map (fun e => (e.fieldName, e.args)))
+  | _ => none
+def bothRuns (s : Schema) (doc : Document) : Option (Exec.Response × Exec.Response) :=
+  match normalizeDocument s doc "" with
+  | .ok doc' synth => some (Exec.execute s doc' "" (synth ++ []) exWorld 40, Exec.execute s doc "" [] exWorld 40)
+  | _ => none
+example : (match normalizeDocument exS2 exDocGood "" with | .ok _ synth => synth.length | _ => 0) = 1 := by decide +kernel
+example : (match bothRuns exS2 exDocGood with
+    | some (r', r) => (summary r').isSome && summary r' == summary r
+    | none => false) = true := by decide +kernel
+-- the premises of `normalized_transparent` are satisfiable: on this schema and request they all hold, for every world,
+-- variables and fuel (the instance above is a special case)
+theorem exDocGood_lex : DocLex exDocGood := by
+  intro op name vars dirs sel loc h
+  simp only [exDocGood, docOf, List.mem_singleton, Definition.operation.injEq] at h
+  obtain ⟨_, _, _, _, rfl, _⟩ := h
+  simp only [LexSet, LexList, LexSel, LexOpt, fld, arg3, Option.map, List.mem_singleton, forall_eq, and_true,
+    List.not_mem_nil, false_implies, implies_true, true_and, Reader.WFValue, and_self]
+  decide
+example (inputs : Vars) (w : Exec.World) (fuel : Nat) (doc' : Document) (synth : Vars)
+    (h : normalizeDocument exS2 exDocGood "" = .ok doc' synth) :
+    Exec.execute exS2 doc' "" (synth ++ inputs) w fuel = Exec.execute exS2 exDocGood "" inputs w fuel :=
+  normalized_transparent_checked exS2 (by decide +kernel) (by decide +kernel) exDocGood doc' "" inputs synth w fuel h
+    exDocGood_lex (by decide +kernel)
+-- … and `KeysFunctional` rejects the counterexample below
+example : ¬ KeysFunctional (docOf [fld (some "x") "a" [] none, fld (some "x") "b" [] none]) := by decide +kernel
+-- `ExecUniform` is necessary: `{ x: a { k1: f(v: 3) } x: b { k2: f(v: 3) } }` merges `a` and `b` under one key; B's
+-- sub-selection (normalised against `B.f(v: [Int])`) is executed at A, whose resolver then receives `[3]` instead of `3`
+def exDocBad : Document := docOf [fld (some "x") "a" [] (some [fld (some "k1") "f" [arg3 "v"] none]),
+  fld (some "x") "b" [] (some [fld (some "k2") "f" [arg3 "v"] none])]
+example : (match bothRuns exS2 exDocBad with
+    | some (r', r) => (summary r').isSome && (summary r).isSome && !(summary r' == summary r)
+    | none => false) = true := by decide +kernel
 -- D-06j repaired: a variable the document merely uses is skipped
 example : (nextName (userVarNames [] ++ ["__pcv0"]) 0).1 = "__pcv1" := by decide +kernel
 end Examples
